@@ -257,6 +257,14 @@ def run_impl(prog, main=None, env=None):
         with warnings.catch_warnings():
             warnings.simplefilter("ignore")
             t = env.from_string(src, globals=dict(prog.get("tglobals") or {}), matter=dict(prog.get("matter") or {}))
+            if prog.get("async"):
+                import asyncio
+
+                loop = asyncio.new_event_loop()
+                try:
+                    return {"ok": canon_text(loop.run_until_complete(t.render_async(**dict(prog.get("args") or {}))))}
+                finally:
+                    loop.close()
             return {"ok": canon_text(t.render(**dict(prog.get("args") or {})))}
     except RecursionError:
         return {"err": "RecursionError"}
